@@ -28,6 +28,10 @@ def run(ctx):
     seqs = ctx.read_emitted(g2, "sequences.ndjson")
     g3 = ctx.tlc(SPEC, "DedupKey", cfg="Gen_KeyCollisions", workers=1, label="Gen_KeyCollisions", dump_trace=False)
     coll = ctx.read_emitted(g3, "collisions.ndjson")
+    g4 = ctx.tlc(SPEC, "DedupKinds", cfg="Gen_Kinds", workers=1, label="Gen_Kinds", dump_trace=False)
+    kinds = ctx.read_emitted(g4, "kinds.ndjson")
+    if len(kinds) != 216:
+        ctx.broken("expected 216 kind sequences, got %d" % len(kinds))
     if len(sched) < 100 or len(seqs) < 50 or len(coll) < 4:
         ctx.broken("generation too small: %d schedules, %d sequences, %d collisions" % (len(sched), len(seqs), len(coll)))
     import random
@@ -40,7 +44,7 @@ def run(ctx):
         good = [s for s in sched if not racy(s)]
         sched = rnd.sample(bad, min(len(bad), 60)) + rnd.sample(good, min(len(good), 40))
         seqs = rnd.sample(seqs, min(len(seqs), 40))
-    inputs = {"schedules.ndjson": sched, "sequences.ndjson": seqs, "collisions.ndjson": coll}
+    inputs = {"schedules.ndjson": sched, "sequences.ndjson": seqs, "collisions.ndjson": coll, "kinds.ndjson": kinds}
     env = {"VERIF_ROUNDS": ctx.pick(300, 3000)}
     go1 = ctx.gotest("pkg/tbtc", "^TestVerif_C37_", ["c37_test.go"], inputs=inputs, env=env, label="tbtc", timeout=ctx.pick(900, 3000))
     ctx.absorb(go1)
